@@ -73,6 +73,10 @@ CHECKS = {
    "Attaches generated standard error details (every subset of the 10 kinds as a set; lists of 0..12 with repeats) to statuses, sends them through the real header encoding and compares every getter field-wise; parses the embedded google.rpc.Status with the harness's own protobuf parser; feeds garbage/truncated/bit-flipped details to every decoder entry point under catch_unwind.",
    "Held on the executions produced; the detail types have no PartialEq so comparison is on a field-wise canonical rendering.",
    "runtime monitoring: field-wise round-trip oracle + independent protobuf parse + totality under catch_unwind", "DESIGN.md#c20"),
+ "C03": ("exploration",
+   "Taps what tonic's client and server bodies put on the wire for all four call shapes, every compression setting and the OK / handler-error / source-error / encode-failure outcomes, polls both bodies beyond their end, and has two judges that share no code with tonic decide conformance: a reference parser in the harness and oracle_py/wirecheck.py re-judging the recorded JSONL wire log with Python's zlib/gzip and the zstd CLI.",
+   "Held on the executions produced; HTTP/2 pseudo-headers and END_STREAM flags are below the tapped boundary in the quick tier (hyper/h2 produce them).",
+   "runtime monitoring: wire taps + two independent decoders (Rust reference parser, offline Python judge over the recorded log)", "DESIGN.md#c03"),
 }
 
 NOT_YET = {}
